@@ -32,6 +32,16 @@ def set_state_and_return(x):
     return x + 1
 
 
+def set_states(values, then='return'):
+    """assigns the given values to user_state one after the other, then returns / raises"""
+    me = _me()
+    for v in values:
+        me.user_state = v
+    if then == 'raise':
+        raise ValueError('boom')
+    return len(values)
+
+
 def set_state_and_raise(x):
     me = _me()
     me.user_state = ('child', x)
